@@ -925,6 +925,9 @@ def tt_font_of(cs):
 def tt_matches(result, real_name, real_map):
     """does what the real reader did fit a model result {err, pairs}?  The inverse map may pick any character of a glyph;
     glyph 0 (.notdef) is not constrained."""
+    if result["err"] == "CMapNotFound":
+        # a map that knows only glyph 0 (.notdef) is as good as none: no CID > 0 gets a character either way
+        return real_name == "CMapNotFound" or (real_name == "ok" and not any(g for g in real_map))
     if result["err"] != "none":
         return real_name == result["err"]
     if real_name != "ok":
@@ -947,7 +950,13 @@ def tt_worker(batch):
         # the two independent readings of the layout (TLA+ reference, Python reader) must agree on what the file says
         ref = ttf.ref_unicode_pairs(font)
         want = {c: g for c, g in r["i"]["pairs"]}
-        if (ref or {}) != want:
+        if cs["kind"] == "dir":
+            exp = [dict((int(c), int(g)) for c, g in s["pairs"]) for s in cs["subs"]
+                   if (s["p"] == 0 or (s["p"] == 3 and s["e"] in (1, 10))) and s["fmt"] in (0, 2, 4)] if cs["hascmap"] else None
+            okref = ref == exp
+        else:
+            okref = ref == ([want] if ref else ref) or (not want and ref in ([{}], [{65535: 0}]))
+        if not okref:
             raise MachineryError("TrueType realiser/reference disagreement on %r: reader %r, model %r" % (cs, ref, want))
         name, _calls, rmap = ttrec.real_unicode_map(font)
         f = []
@@ -1085,6 +1094,86 @@ def direction_b_ttcmap(ck, dev, ppool):
     ck.traces += len(traces) - rejected
     ck.extra["sample_truetype_programs_traced"] = len(traces)
     ck.extra["sample_truetype_programs_with_unicode_cmap"] = sum(1 for t in traces if t["result"] == "ok")
+
+
+# =============================================================================================== A9 shared descendant
+T0_CIDS = [843, 1125, 736]
+T0_STREAMS = {"streamX": {843: "X"}, "streamY": {843: "Y", 1125: "Z"}}
+
+
+def type0_share_doc(built):
+    """one descendant CIDFont (indirect object 100) shared by all Type0 fonts; page j shows T0_CIDS with the j-th font"""
+    from ..realise import fontpdf as fp
+    from ..realise.pdfwriter import Name, Ref, Revision, Stream, build
+    objs = {1: {"Type": Name("Catalog"), "Pages": Ref(2)},
+            100: {"Type": Name("Font"), "Subtype": Name("CIDFontType2"), "BaseFont": Name("VerifShared"),
+                  "CIDSystemInfo": {"Registry": b"Adobe", "Ordering": b"Japan1", "Supplement": 2},
+                  "FontDescriptor": {"Type": Name("FontDescriptor"), "FontName": Name("VerifShared"), "Flags": 4,
+                                     "FontBBox": [0, -200, 1000, 800], "ItalicAngle": 0, "Ascent": 800, "Descent": -200,
+                                     "StemV": 80}}}
+    kids = []
+    for j, b in enumerate(built):
+        f = {"Type": Name("Font"), "Subtype": Name("Type0"), "BaseFont": Name("VerifShared"), "Encoding": Name(b["enc"]),
+             "DescendantFonts": [Ref(100)]}
+        if b["want"] != "absent":
+            ents = [(c, t) for c, t in sorted(T0_STREAMS[b["want"]].items())]
+            objs[120 + j] = Stream({}, fp.tounicode_cmap([("bfchar", ents)], codelen=2))
+            f["ToUnicode"] = Ref(120 + j)
+        objs[110 + j] = f
+        objs[140 + 2 * j] = Stream({}, b"BT /F1 10 Tf 1 0 0 1 100 700 Tm <" +
+                                   b"".join(c.to_bytes(2, "big") for c in T0_CIDS).hex().encode() + b"> Tj ET")
+        objs[141 + 2 * j] = {"Type": Name("Page"), "Parent": Ref(2), "MediaBox": [0, 0, 612, 792],
+                             "Resources": {"Font": {"F1": Ref(110 + j)}}, "Contents": Ref(140 + 2 * j)}
+        kids.append(Ref(141 + 2 * j))
+    objs[2] = {"Type": Name("Pages"), "Kids": kids, "Count": len(kids)}
+    pdf, _ = build([Revision(dict(sorted(objs.items())), root=Ref(1))])
+    return pdf
+
+
+def type0_share_expected(b):
+    """what the font reports when it is the only font loaded: its own ToUnicode stream, else the collection map of its mode"""
+    from ..observe import cidrec
+    if b["want"] != "absent":
+        m = T0_STREAMS[b["want"]]
+        return [m.get(c, "(cid:%d)" % c) for c in T0_CIDS]
+    d = cidrec.cid2unichr("Adobe-Japan1", b["enc"].endswith("V"))
+    return [d.get(c, "(cid:%d)" % c) for c in T0_CIDS]
+
+
+def direction_a_type0share(ck, fut):
+    from ..realise import fontpdf as fp
+    res, emit = fut
+    ck.add_tlc(res, "Type0Share: load orders <= 3 of 4 Type0 fonts sharing one descendant dictionary")
+    if not res.ok:
+        return model_violation(ck, res, "Type0Share")
+    require_coverage(res, ["ALoad"])
+    n = 0
+    for line in open(emit):
+        built = json.loads(line)["b"]
+        n += 1
+        for b in built:
+            if b["got"] != {"enc": b["enc"], "tu": b["want"]}:
+                raise MachineryError("Type0Share emitted a history its invariant forbids")
+        alone = [[t[0] for t in fp.chars_of(type0_share_doc([b]))[0]] for b in built]
+        for b, a in zip(built, alone):
+            if a != type0_share_expected(b):
+                report(ck, "type0-alone", "Type0 font %s loaded alone reports %r, expected %r" % (b["id"], a, type0_share_expected(b)),
+                       {"kind": "type0share", "built": [b]})
+        pages = fp.chars_of(type0_share_doc(built))
+        for j, (b, pg) in enumerate(zip(built, pages)):
+            got = [t[0] for t in pg]
+            ck.case(len(T0_CIDS), ("Z", json.dumps([x["id"] for x in built]), j) if j else None)
+            if got != alone[j]:
+                report(ck, "type0-shared-descendant", "Type0 fonts %s sharing one descendant CIDFont object, loaded in this order: "
+                       "font %s reports %r, loaded alone it reports %r" % ([x["id"] + ("+ToUnicode" if x["want"] != "absent" else "")
+                                                                            for x in built], b["id"], got, alone[j]),
+                       {"kind": "type0share", "built": built})
+                break
+    os.remove(emit)
+    if n != res.emitted or n == 0:
+        raise MachineryError("Type0Share: emitted %d, replayed %d" % (res.emitted, n))
+    ck.replayed += n
+    ck.extra["shared_descendant_load_orders_replayed"] = n
 
 
 # =============================================================================================== B traces
@@ -1251,7 +1340,7 @@ def run(ck):
 
     def add(label, mod, cfg):
         emit = os.path.join(ck.tmp, label + ".ndjson")
-        jobs[label] = (os.path.join(FONT, mod), cfg, emit, quick or label in ("place", "sel", "use", "umap"), 4)
+        jobs[label] = (os.path.join(FONT, mod), cfg, emit, quick or label in ("place", "sel", "use", "umap", "t0share"), 4)
 
     dv = "<- AllDev" if "IdentityOddRaises" in dev else "<- NoDev"
     add("seg", "MC_CIDFont.tla", cfg_with(ck, "MC_CIDFont.cfg", "seg.cfg",
@@ -1269,6 +1358,7 @@ def run(ck):
     add("sel", "MC_CIDSelect.tla", cfg_with(ck, "MC_CIDSelect.cfg", "sel.cfg", replace={"Dev <- AllDev": "Dev " + dsel}))
     add("use", "MC_UseCMap.tla", cfg_with(ck, "MC_UseCMap.cfg", "use.cfg"))
     add("umap", "MC_UMapCache.tla", cfg_with(ck, "MC_UMapCache.cfg", "umap.cfg"))
+    add("t0share", "MC_Type0Share.tla", cfg_with(ck, "MC_Type0Share.cfg", "t0share.cfg"))
     ttdev = [d for d in active("ttf") if d in TT_DEVS]
     ck.extra["deviations_modelled_as_coded"] = dev + ttdev
     add("tt", "MC_TrueTypeCMap.tla", cfg_with(ck, "MC_TrueTypeCMap_small.cfg" if quick else "MC_TrueTypeCMap.cfg", "tt.cfg",
@@ -1287,6 +1377,7 @@ def run(ck):
         direction_a_selection(ck, got("sel"), ppool)
         direction_a_usecmap(ck, got("use"))
         direction_a_umap(ck, got("umap"), tpool)
+        direction_a_type0share(ck, got("t0share"))
         direction_a_ttcmap(ck, got("tt"), ppool)
         direction_b(ck, ppool)
         direction_b_ttcmap(ck, ttdev, ppool)
@@ -1314,6 +1405,15 @@ def replay(path):
         arr = py_array(case["array"])
         print(arr, "->", get_widths(arr) if case["mode"] == "W" else get_widths2(arr))
         bad = True
+    elif kind == "type0share":
+        from ..realise import fontpdf as fp
+        built = case["built"]
+        pages = fp.chars_of(type0_share_doc(built))
+        bad = False
+        for b, pg in zip(built, pages):
+            alone = [t[0] for t in fp.chars_of(type0_share_doc([b]))[0]]
+            print(b["id"], [t[0] for t in pg], "alone:", alone, "expected:", type0_share_expected(b))
+            bad |= [t[0] for t in pg] != alone or alone != type0_share_expected(b)
     elif kind == "ttcmap":
         fnd = tt_worker([case["rec"]])[0]
         for f in fnd:
